@@ -1,37 +1,131 @@
 package verifsim
 
 import (
+	"encoding/json"
+	"flag"
 	"fmt"
+	"math/rand"
 	"os"
+	"runtime/debug"
+	"strconv"
+	"strings"
 	"testing"
-	"testing/synctest"
 	"time"
-
-	"github.com/sanonone/kektordb/pkg/core/distance"
-	"github.com/sanonone/kektordb/pkg/engine"
 )
 
-func TestSmoke(t *testing.T) {
-	dir, _ := os.MkdirTemp("", "kdsim")
-	defer os.RemoveAll(dir)
-	defer func() { recover() }()
-	synctest.Test(t, func(t *testing.T) {
-		opts := engine.DefaultOptions(dir)
-		e, err := engine.Open(opts)
+var kdArgs = map[string]string{}
+
+func TestMain(m *testing.M) {
+	flag.Parse()
+	for _, a := range flag.Args() {
+		if i := strings.IndexByte(a, '='); i > 0 {
+			kdArgs[a[:i]] = a[i+1:]
+		}
+	}
+	for _, a := range strings.Fields(os.Getenv("KDSIM")) {
+		if i := strings.IndexByte(a, '='); i > 0 {
+			kdArgs[a[:i]] = a[i+1:]
+		}
+	}
+	quietLogs()
+	os.Exit(m.Run())
+}
+
+// propFunc runs one simulated run of a property. If tr != nil the explicit
+// trace is replayed instead of generating from the seed.
+type propFunc func(w *World, tr *Trace)
+
+var props = map[string]propFunc{}
+
+func argInt(k string, def int64) int64 {
+	if v, ok := kdArgs[k]; ok {
+		n, err := strconv.ParseInt(v, 10, 64)
+		if err == nil {
+			return n
+		}
+	}
+	return def
+}
+
+// TestSim is the entry point: kdsim.test -test.run '^TestSim$' -- prop=C01 seeds=1-20 [replay=file] [full=1]
+func TestSim(t *testing.T) {
+	prop := kdArgs["prop"]
+	if prop == "" {
+		t.Skip("no prop given")
+	}
+	f := props[prop]
+	if f == nil {
+		fmt.Printf("KDSIM-HARNESS-ERROR unknown property %s\n", prop)
+		os.Exit(2)
+	}
+	var tr *Trace
+	if p := kdArgs["replay"]; p != "" {
+		b, err := os.ReadFile(p)
 		if err != nil {
-			t.Fatal(err)
+			fmt.Printf("KDSIM-HARNESS-ERROR %v\n", err)
+			os.Exit(2)
 		}
-		if err := e.VCreate("i", distance.Euclidean, 4, 8, distance.Float32, "", nil, nil, nil); err != nil {
-			t.Fatal(err)
+		tr = &Trace{}
+		if err := json.Unmarshal(b, tr); err != nil {
+			fmt.Printf("KDSIM-HARNESS-ERROR bad trace: %v\n", err)
+			os.Exit(2)
 		}
-		for i := 0; i < 5; i++ {
-			if err := e.VAdd("i", fmt.Sprint("v", i), []float32{float32(i), 1}, map[string]any{"k": float64(i)}); err != nil {
-				t.Fatal(err)
+	}
+	lo, hi := int64(1), int64(1)
+	if s, ok := kdArgs["seeds"]; ok {
+		parts := strings.SplitN(s, "-", 2)
+		lo, _ = strconv.ParseInt(parts[0], 10, 64)
+		hi = lo
+		if len(parts) == 2 {
+			hi, _ = strconv.ParseInt(parts[1], 10, 64)
+		}
+	} else if s, ok := kdArgs["seed"]; ok {
+		lo, _ = strconv.ParseInt(s, 10, 64)
+		hi = lo
+	}
+	if tr != nil {
+		lo, hi = tr.Seed, tr.Seed
+	}
+	for seed := lo; seed <= hi; seed++ {
+		res := runOne(t, prop, f, seed, tr)
+		if kdArgs["full"] == "" && res.Violation == nil && res.Harness == "" {
+			res.Trace = sampleTrace(res.Trace)
+		}
+		emit(res)
+	}
+}
+
+// sampleTrace keeps traces small in the result stream of passing runs.
+func sampleTrace(tr *Trace) *Trace {
+	if tr == nil {
+		return nil
+	}
+	if kdArgs["keeptrace"] != "" {
+		return tr
+	}
+	return nil
+}
+
+func runOne(t *testing.T, prop string, f propFunc, seed int64, tr *Trace) (res *Result) {
+	start := time.Now()
+	rand.Seed(seed)
+	w := newWorld(t, prop, seed)
+	res = w.Res
+	defer func() {
+		res.WallMS = time.Since(start).Milliseconds()
+		w.cleanup()
+	}()
+	defer func() {
+		if r := recover(); r != nil {
+			if he, ok := r.(harnessErr); ok {
+				res.Harness = he.msg
+				res.OK = false
+				return
 			}
+			res.Harness = fmt.Sprintf("harness panic outside bubble: %v\n%s", r, debug.Stack())
+			res.OK = false
 		}
-		time.Sleep(2 * time.Second)
-		synctest.Wait()
-		fmt.Println("now", time.Now())
-		e.Close()
-	})
+	}()
+	f(w, tr)
+	return res
 }
